@@ -152,7 +152,7 @@ def worker(args):
         uid = "%s-%d" % (args.get("seed"), u)
         searches = []
         for k in range(args["searches"]):
-            s, info = lab.search(allow_last=(rng.random() < 0.25))
+            s, info = lab.search(allow_last=(rng.random() < 0.25) and not args.get("no_last"))
             searches.append(s)
         baselines = {}
         for s in searches:
